@@ -31,6 +31,48 @@ From TP Require PMonSound8_C08 PObs PMon.
 Theorem mon_sound : forall c tr, clean (run c tr) -> taint_iter (run c tr) = false -> taint_self (run c tr) = false -> PMon.ok_C08 c (PObs.observe c tr) = true.
 Proof. exact PMonSound8_C08.mon_C08_sound. Qed.
 
+(** EVENTUALLY: gather_and_close() does return.  Under a cooperative environment (PLive_def.coop:
+    no further request or cancellation; every waiting worker may finish, every slow callback
+    complete; internal steps in any order), pool size not 0 and pool_size not reassigned, in the
+    final state of EVERY maximal cooperative run a pending gather_and_close() has returned - with
+    OResult, or (return_exceptions=False only) with an exception raised by a pool task's user code
+    - and when it returned normally the pool is closed, holds no task, every spawner has finished
+    and every until_closed() waiter has returned.  (PLiveDrv.v also shows: with size 0 or after a
+    pool_size assignment it can wait for ever - the D6 lost wake-up - and after a raising
+    gather_and_close(False) the pool stays locked but open.) *)
+From TP Require PLive_def PLiveDrv_stuck PLiveDrv.
+Theorem C08_eventually_closes : forall c tr0 d x re,
+  clean (run c tr0) -> taint_size (run c tr0) = false -> cf_size c <> Fin 0 ->
+  get_d (run c tr0) d = Some x -> d_kind x = DGatherClose re ->
+  forall tr, PLive_def.coop_run (run c tr0) tr ->
+  (forall l, ~ PLive_def.coop_run (run c tr0) (tr ++ [l])) ->
+  let s' := run c (tr0 ++ tr) in
+  exists x', get_d s' d = Some x' /\ d_kind x' = DGatherClose re /\ PLiveDrv_stuck.drv_done x' /\
+    (re = true \/ d_final x' = Some OResult ->
+       d_final x' = Some OResult /\ closed s' = true /\ regs s' = [] /\
+       (forall t y, get_p s' t = Some y -> p_pc y = PDone) /\
+       (forall m y, get_m s' m = Some y -> m_final y <> None) /\
+       (forall d' y, get_d s' d' = Some y -> d_kind y = DUntilClosed ->
+                     PLiveDrv_stuck.drv_done y /\ d_final y = Some OResult)).
+Proof.
+  intros c tr0 d x re Hc Hts Hsz G K tr Hr Hmax s'.
+  destruct (PLiveDrv.C08_eventually_closes c tr0 d x re Hc Hts Hsz G K tr Hr Hmax)
+    as (x' & A & B & C & _ & E).
+  exists x'. split; [exact A|]. split; [exact B|]. split; [exact C|exact E].
+Qed.
+
+(** until_closed() returns in a maximal cooperative run iff the pool ends closed *)
+Theorem C08_until_closed_eventually : forall c tr0 d x,
+  clean (run c tr0) ->
+  get_d (run c tr0) d = Some x -> d_kind x = DUntilClosed ->
+  forall tr, PLive_def.coop_run (run c tr0) tr ->
+  (forall l, ~ PLive_def.coop_run (run c tr0) (tr ++ [l])) ->
+  exists x', get_d (run c (tr0 ++ tr)) d = Some x' /\ d_kind x' = DUntilClosed /\
+             (PLiveDrv_stuck.drv_done x' <-> closed (run c (tr0 ++ tr)) = true).
+Proof. exact PLiveDrv.until_closed_eventually_returns. Qed.
+
 Print Assumptions C08.
 Print Assumptions C08_requests_complete.
 Print Assumptions mon_sound.
+Print Assumptions C08_eventually_closes.
+Print Assumptions C08_until_closed_eventually.
